@@ -31,23 +31,54 @@ package scen
 //	                  specific call site can be listed as a finding without
 //	                  hiding other hangs)
 //	panic             a panic on the caller's goroutine (recovered by opSet.Go)
-//	close-hang/leak   (closeAndCensus) background work ends at Close
 //	crash             (driver) a panic on a goroutine owned by the system
+//	background-lingers  every operation has returned, every parked call was
+//	                  answered, 5 more minutes of virtual time passed with
+//	                  nothing left to answer, the callers' contexts are still
+//	                  live - and the instance runs goroutines it did not run
+//	                  right after construction: work left in the background did
+//	                  not end by itself within the operation's own time-outs
+//	                  (census by creating function, compared with a census
+//	                  taken before the first operation)
+//	quorum-handover-stuck  the two census rules (above, below) for one
+//	                  pattern with an id of its own: a value search of the
+//	                  standard client with a quorum has returned, its caller's
+//	                  context is live, and what lingers is that search's lookup
+//	                  with a per-peer worker inside the record hand-over (see
+//	                  lingerRule; found on the original snapshot, repaired in
+//	                  /repo, replays findings/C03-quorum-handover-stuck*.json)
+//	close-hang/leak   (closeAndCensus) background work ends at Close. In the
+//	                  accelerated/dual scenarios and in value-quorum-racy the
+//	                  contexts of operations that were drawn "never cancelled"
+//	                  stay live through Close (a caller using
+//	                  context.Background()).
 //
 // Scenarios: ops-faulty (any operation mix, faults, cancellation), ops-clean
 // (no faults, no cancellation), optimistic-provide (EnableOptimisticProvide,
 // estimator fed by real warm-up lookups, or deliberately left unfed),
 // cancel-after-search (cancellation 0-2 steps after the Terminate event: the
 // window before the follow-up, the follow-up itself, the put phase; late
-// replies racing the cancellation).
+// replies racing the cancellation); value-quorum-racy (Racy: value searches
+// with quorum 1..4 and records on many peers, so that the quorum is reached
+// during the search, between search and follow-up, during the follow-up; late
+// replies of every kind); fullrt-ops / dual-ops and their -racy variants
+// (c03_clients.go).
 //
-// Kept out of the schedule space because the outcome is a coin of the Go
-// runtime inside the system (select with two ready cases / unsynchronised
-// goroutines), which would make runs unreplayable: value searches with a
-// quorum (stop signal raised by one goroutine, polled by another); cancelling a
-// SearchValue whose consumer is not receiving; replies carrying a record /
-// providers delivered to a call whose context is already done while somebody
-// could receive them; the Terminate event of a cancelled lookup.
+// Kept out of the schedule space of the ordinary scenarios because the outcome
+// is a coin of the Go runtime inside the system (select with two ready cases /
+// unsynchronised goroutines), which would make runs unreplayable: value
+// searches of the standard client with a quorum (stop signal raised by one
+// goroutine, polled by another); cancelling a SearchValue whose consumer is not
+// receiving; replies carrying a record / providers delivered to a call whose
+// context is already done while somebody could receive them; the Terminate
+// event of a cancelled lookup; a SearchValue whose consumer is not reading and
+// for which more than one per-peer worker sits on a received record (the value
+// loop swallows records that are not better without blocking, so one receive of
+// the consumer lets several workers finish in the same instant and the order
+// of their reports to the lookup loop - which decides whether one more peer is
+// asked before the lookup ends - is the Go scheduler's: c03op.pipe). All of
+// these are generated by the scenarios registered with Racy: true, whose
+// oracle (liveness, panic, leak) holds whichever way those coins fall.
 //
 // Liveness is demanded only after faults stop; an operation in flight is never
 // judged. No implementation constant is mirrored: the estimator warm-up runs
@@ -57,6 +88,7 @@ import (
 	"context"
 	"fmt"
 	"runtime"
+	"sort"
 	"strings"
 	"sync/atomic"
 	"time"
@@ -68,6 +100,7 @@ import (
 	record "github.com/libp2p/go-libp2p-record"
 	recpb "github.com/libp2p/go-libp2p-record/pb"
 	"github.com/libp2p/go-libp2p/core/peer"
+	"github.com/libp2p/go-libp2p/core/routing"
 	mh "github.com/multiformats/go-multihash"
 
 	"verif/sim"
@@ -104,6 +137,18 @@ func init() {
 	sim.Register(common(&sim.Scenario{Prop: "C03", Name: "cancel-after-search", Weight: 2, Run: func(s *sim.Sim) {
 		runC03(s, c03cfg{FollowUp: true})
 	}}))
+	// Value searches with a quorum: how the quorum-driven stop is noticed is a
+	// coin inside the system (see the header), so the runs are not replayable
+	// bit for bit; every rule of this file holds whichever way the coins fall.
+	vq := common(&sim.Scenario{Prop: "C03", Name: "value-quorum-racy", Weight: 2, Racy: true, Run: func(s *sim.Sim) {
+		runC03(s, c03cfg{Faulty: true, Quorum: true, Racy: true,
+			Kinds: []int{c03GetValue, c03SearchValue, c03GetValue, c03SearchValue, c03GetValue, c03SearchValue, c03FindProvidersAsync, c03PutValue}})
+	}})
+	vq.Faults = []string{"fault_dial_fail", "fault_rpc_error", "fault_silent_timeout", "fault_slow_reply", "fault_cancel", "fault_deadline", "time_advance", "cancel_observed",
+		"probe_quorum_search", "probe_quorum_reached_before_termination", "probe_quorum_followup_aborted", "probe_quorum_not_reached",
+		"probe_late_reply_after_cancel", "probe_late_record_after_abort", "probe_followup_ran", "probe_never_cancelled_ctx",
+		"probe_background_ended_by_itself", "probe_op_GetValue", "probe_op_SearchValue"}
+	sim.Register(vq)
 }
 
 // ---------------------------------------------------------------------------
@@ -113,6 +158,14 @@ type c03cfg struct {
 	Faulty     bool
 	Optimistic bool
 	FollowUp   bool // focus on cancellation after the search ended (follow-up / put phase, late replies)
+	Quorum     bool // value searches with a quorum 1..4 and records on most peers (standard client: Racy only)
+	// Racy: the scenario is registered with Racy: true; the restrictions that
+	// keep coin flips of the system out of the schedule space are lifted (late
+	// replies of every kind, unsafe cancellation instants, lazy consumers
+	// everywhere, no limit on workers sitting on a record).
+	Racy   bool
+	Client string // "" the standard client on H1; "fullrt", "dual": c03_clients.go
+	Kinds  []int  // operation kinds to draw from (nil: the eight routing operations)
 
 	N, K, Alpha, Beta int
 	FaultLevel        int // 0 none, 1 light, 2 heavy, 3 every peer fails
@@ -132,7 +185,13 @@ const (
 	c03nKinds
 )
 
-var c03KindName = [...]string{"GetClosestPeers", "FindPeer", "GetValue", "SearchValue", "FindProviders", "FindProvidersAsync", "PutValue", "Provide"}
+// bulk operations of the accelerated client (never drawn for the others)
+const (
+	c03ProvideMany = c03nKinds + iota
+	c03PutMany
+)
+
+var c03KindName = [...]string{"GetClosestPeers", "FindPeer", "GetValue", "SearchValue", "FindProviders", "FindProvidersAsync", "PutValue", "Provide", "ProvideMany", "PutMany"}
 
 const (
 	pmHonest = iota
@@ -181,6 +240,21 @@ type c03op struct {
 	count   int     // FindProvidersAsync
 	lazy    bool    // channel consumer reads only when the scheduler says so
 	lookupT pb.Message_MessageType
+	// bulk operations: several keys under one call
+	bulkKeys []string // wire keys
+	bulkVals [][]byte // PutMany
+	bulkMhs  []mh.Multihash
+
+	// neverCancel: the caller's context stays live for good (a caller using
+	// context.Background()): it is cancelled neither during the run nor before
+	// Close, unless the operation is still in flight when the run is torn down.
+	neverCancel bool
+	localVal    bool // a record for the key is in the local store
+	followAbort bool // probe: the follow-up phase of this quorum search was aborted
+	// pipe: upper bound on the records handed to the system for this (lazily
+	// consumed) SearchValue that the consumer has not received yet; seenRecv is
+	// the consumer's count at the last look. See c03world.recordRoom.
+	pipe, seenRecv int
 
 	cancelMode  int // 0 none, 1 at step, 2 after Terminate, 3 deadline
 	cancelAfter int
@@ -213,10 +287,34 @@ type c03op struct {
 
 func (op *c03op) name() string { return c03KindName[op.kind] }
 
+// c03api is the client under test: the routing operations it offers (nil: not
+// offered by this client).
+type c03api struct {
+	GetClosestPeers    func(ctx context.Context, key string) ([]peer.ID, error)
+	FindPeer           func(ctx context.Context, id peer.ID) (peer.AddrInfo, error)
+	GetValue           func(ctx context.Context, key string, opts ...routing.Option) ([]byte, error)
+	SearchValue        func(ctx context.Context, key string, opts ...routing.Option) (<-chan []byte, error)
+	FindProviders      func(ctx context.Context, c cid.Cid) ([]peer.AddrInfo, error)
+	FindProvidersAsync func(ctx context.Context, c cid.Cid, count int) <-chan peer.AddrInfo
+	PutValue           func(ctx context.Context, key string, val []byte, opts ...routing.Option) error
+	Provide            func(ctx context.Context, c cid.Cid, announce bool) error
+	ProvideMany        func(ctx context.Context, keys []mh.Multihash) error
+	PutMany            func(ctx context.Context, keys []string, vals [][]byte) error
+}
+
 type c03world struct {
-	s     *sim.Sim
-	h     *H1
-	cfg   c03cfg
+	s *sim.Sim
+	// h: the standard client on H1; for the other clients only S, U, Host, K and
+	// Beh are set (peer model, closer-peer replies)
+	h        *H1
+	api      c03api
+	snds     []*simnet.Sender
+	closeSUT func()
+	baseline map[string]int // goroutines of the system right before the first operation, by creating function
+	// bulkSingleKey: bulk operations get one key (accelerated client, ordinary
+	// scenario, table larger than 2K: see c03_clients.go)
+	bulkSingleKey bool
+	cfg      c03cfg
 	peers map[peer.ID]*c03peer
 	ops   []*c03op
 	byKey map[string]*c03op
@@ -329,6 +427,17 @@ func runC03(s *sim.Sim, c c03cfg) {
 		}
 		c.FaultLevel = s.Draw("ffault-level", 2)
 	}
+	if c.Quorum {
+		// as above: a follow-up phase with several peers, and records on most
+		// peers, so that the quorum is reached at different phases
+		c.K = s.Range("qk", 3, 8)
+		c.Beta = s.Range("qbeta", 1, 3)
+		c.Alpha = s.Range("qalpha", 1, 3)
+		if c.N < c.K+2 {
+			c.N = c.K + 2
+		}
+		c.FaultLevel = s.Draw("qfault-level", 3)
+	}
 	if c.Optimistic {
 		if c.K > 6 {
 			c.K = 6
@@ -362,6 +471,14 @@ func runC03(s *sim.Sim, c c03cfg) {
 		records.VerifSetShuffle(pm, det)
 	}
 	w := &c03world{s: s, h: h, cfg: c, peers: map[peer.ID]*c03peer{}, byKey: map[string]*c03op{}, byTag: map[string]*c03op{}, seen: map[string]time.Duration{}}
+	d := h.DHT
+	w.api = c03api{GetClosestPeers: d.GetClosestPeers, FindPeer: d.FindPeer, GetValue: d.GetValue, SearchValue: d.SearchValue,
+		FindProviders: d.FindProviders, FindProvidersAsync: d.FindProvidersAsync, PutValue: d.PutValue, Provide: d.Provide}
+	w.snds = []*simnet.Sender{h.Snd}
+	w.closeSUT = func() {
+		_ = h.DHT.Close()
+		_ = h.Host.Close()
+	}
 	real := u.Peers[:c.N]
 
 	// knowledge graph and behaviours
@@ -405,6 +522,7 @@ func runC03(s *sim.Sim, c c03cfg) {
 		case c03GetValue, c03SearchValue:
 			if rng.Intn(3) == 0 {
 				_ = h.DHT.PutValue(context.Background(), op.key, rankValue(rng.Intn(3), time.Time{}, op.key)) // fails after the local put: no peers yet
+				op.localVal = true
 				s.Count("probe_local_value")
 			}
 		case c03FindProviders, c03FindProvidersAsync:
@@ -470,10 +588,21 @@ func runC03(s *sim.Sim, c c03cfg) {
 		c.N, c.K, c.Alpha, c.Beta, h.DHT.RoutingTable().Size(), c.FaultLevel, c.Optimistic, w.fed, c.PoolSize, strings.Join(kinds, ","), w.faultStop)
 	s.Tracef("world N=%d K=%d a=%d b=%d table=%d fl=%d fed=%v ops=%s", c.N, c.K, c.Alpha, c.Beta, h.DHT.RoutingTable().Size(), c.FaultLevel, w.fed, strings.Join(kinds, ","))
 
+	w.play()
+	s.Finish()
+}
+
+// play runs the generated operations against the client that was set up:
+// main phase with faults, drain, verdicts, teardown.
+func (w *c03world) play() {
+	s := w.s
 	for _, op := range w.ops {
 		w.spawn(op)
 	}
 	s.Quiesce()
+	// the clients are parked before their calls: what runs now is the instance's
+	// own (plus the lookup-event subscriptions spawn made)
+	w.baseline = c03Census()
 
 	w.mainPhase()
 	if !s.Failed() {
@@ -482,8 +611,95 @@ func runC03(s *sim.Sim, c c03cfg) {
 	if !s.Failed() {
 		w.judge()
 	}
+	if !s.Failed() {
+		w.backgroundCensus()
+	}
 	w.teardown()
-	s.Finish()
+}
+
+// c03Goroutines returns the stacks of the goroutines of the system under test:
+// everything in the caller's own bubble that the harness did not create.
+// (Goroutines that an earlier run of this process left behind - a recorded
+// known finding of the "never ends" kind does that - belong to another bubble.)
+func c03Goroutines() []string {
+	buf := make([]byte, 1<<20)
+	for {
+		n := runtime.Stack(buf, true)
+		if n < len(buf) {
+			buf = buf[:n]
+			break
+		}
+		buf = make([]byte, 2*len(buf))
+	}
+	gs := strings.Split(string(buf), "\n\n")
+	hdr, _, _ := strings.Cut(gs[0], "\n")
+	k := strings.LastIndex(hdr, ", synctest bubble ")
+	if k < 0 {
+		return nil
+	}
+	mine := hdr[k:] // ", synctest bubble <id>]:"
+	var out []string
+next:
+	for _, g := range gs[1:] {
+		hdr, _, _ := strings.Cut(g, "\n")
+		if !strings.HasSuffix(hdr, mine) {
+			continue
+		}
+		c := sim.CreatorOf(g)
+		for _, pre := range harnessPrefixes {
+			if strings.HasPrefix(c, pre) {
+				continue next
+			}
+		}
+		out = append(out, g)
+	}
+	return out
+}
+
+// c03Census counts the goroutines of the system under test by creating function.
+func c03Census() map[string]int {
+	m := map[string]int{}
+	for _, g := range c03Goroutines() {
+		m[sim.CreatorOf(g)]++
+	}
+	return m
+}
+
+// lingerRule names the rule for goroutines that are still there when they
+// should not be (before Close: rule background-lingers; after Close: leak).
+//
+// One pattern has its own id, quorum-handover-stuck, so that it can be listed
+// as a finding without hiding other leaks: a value search of the standard
+// client with a quorum has returned, its caller's context is still live, and
+// every goroutine in question belongs to that search's lookup (its stack runs
+// through the function literal getValues starts) with at least one of them
+// being a per-peer worker inside the record hand-over. Once the quorum is
+// reached nobody reads the one-slot channel the workers hand records to; the
+// hand-over selects on the caller's context only, which a caller using
+// context.Background() never ends, and Close is not in that select.
+func (w *c03world) lingerRule(stacks []string, generic string) (rule, note string) {
+	eligible := false
+	for _, op := range w.ops {
+		if (op.kind == c03GetValue || op.kind == c03SearchValue) && op.quorum > 0 && w.cfg.Client != "fullrt" && op.started && op.api.Done && op.ctx.Err() == nil {
+			eligible = true
+		}
+	}
+	if !eligible || len(stacks) == 0 {
+		return generic, ""
+	}
+	handover := 0
+	for _, g := range stacks {
+		if !strings.Contains(g, "(*IpfsDHT).getValues.func1") {
+			return generic, ""
+		}
+		if strings.Contains(g, "(*IpfsDHT).getValues.func1.1(") && strings.Contains(firstLine(g), "[select") {
+			handover++
+		}
+	}
+	if handover == 0 {
+		return generic, ""
+	}
+	return "quorum-handover-stuck", fmt.Sprintf(" [value search with a quorum: a per-peer worker is stuck handing over a record (%d of them): the quorum was reached, nobody reads the hand-over channel any more, and the hand-over only gives up when the caller's context ends - it never does here, and Close is not in that select (routing.go getValues)]", handover)
 }
 
 func i0(op *c03op) int { return op.idx * 7 }
@@ -495,6 +711,8 @@ func (w *c03world) genOp(i int, rng *subRng, usedTags map[string]bool) *c03op {
 	op := &c03op{idx: i, tag: fmt.Sprintf("o%d", i)}
 	if c.Optimistic && (i == 0 || s.Chance("more-provide", 1, 2)) {
 		op.kind = c03Provide
+	} else if len(c.Kinds) > 0 {
+		op.kind = c.Kinds[s.Draw("op-kind", len(c.Kinds))]
 	} else {
 		op.kind = s.Draw("op-kind", c03nKinds)
 	}
@@ -524,6 +742,9 @@ func (w *c03world) genOp(i int, rng *subRng, usedTags map[string]bool) *c03op {
 		case c03PutValue:
 			op.key, op.lookupT = "/v/"+name, pb.Message_FIND_NODE
 			op.wireKey = op.key
+		case c03PutMany:
+			op.key, op.lookupT = "/v/"+name, pb.Message_PUT_VALUE
+			op.wireKey = op.key
 		default: // provider operations
 			op.cid = c03Cid(name)
 			op.key, op.wireKey = name, string(op.cid.Hash())
@@ -545,9 +766,20 @@ func (w *c03world) genOp(i int, rng *subRng, usedTags map[string]bool) *c03op {
 		// without synchronisation (routing.go getValues stopFn) - which update
 		// sees it is the Go scheduler's choice, so those runs are not replayable.
 		op.quorum = 0
+		holders := 0 // of 4; 0: every other peer
+		switch {
+		case c.Quorum:
+			op.quorum = s.Range("quorum", 1, 4)
+			holders = []int{2, 3, 4, 4}[s.Draw("holders", 4)]
+		case c.Client == "fullrt":
+			// the accelerated client has no stop signal: the value loop just stops
+			// reading once the quorum is reached (nothing racy about that)
+			op.quorum = s.Draw("quorum", 5)
+			holders = []int{1, 2, 3, 4}[s.Draw("holders", 4)]
+		}
 		// scripted holders of the value, with differing ranks
 		for _, p := range real {
-			if rng.Intn(2) == 0 {
+			if (holders == 0 && rng.Intn(2) == 0) || (holders > 0 && rng.Intn(4) < holders) {
 				w.peers[p.ID].values[op.wireKey] = rankValue(rng.Intn(3), time.Time{}, op.key)
 			}
 		}
@@ -563,6 +795,29 @@ func (w *c03world) genOp(i int, rng *subRng, usedTags map[string]bool) *c03op {
 		}
 	case c03PutValue:
 		op.value = rankValue(1+rng.Intn(3), time.Time{}, op.key)
+	case c03ProvideMany, c03PutMany:
+		// one to three keys under one call; the first is the operation's key
+		n := s.Range("bulk-keys", 1, 3)
+		if w.bulkSingleKey {
+			n = 1
+		}
+		for j := 0; j < n; j++ {
+			if op.kind == c03ProvideMany {
+				m := c03Cid(fmt.Sprintf("%s-b%d", op.key, j)).Hash()
+				if j == 0 {
+					m = op.cid.Hash()
+				}
+				op.bulkMhs = append(op.bulkMhs, m)
+				op.bulkKeys = append(op.bulkKeys, string(m))
+			} else {
+				k := op.key
+				if j > 0 {
+					k = fmt.Sprintf("%s-b%d", op.key, j)
+				}
+				op.bulkKeys = append(op.bulkKeys, k)
+				op.bulkVals = append(op.bulkVals, rankValue(1+rng.Intn(3), time.Time{}, k))
+			}
+		}
 	}
 	if op.kind == c03SearchValue || op.kind == c03FindProvidersAsync {
 		op.lazy = s.Chance("lazy-consumer", 1, 2)
@@ -584,10 +839,20 @@ func (w *c03world) genOp(i int, rng *subRng, usedTags map[string]bool) *c03op {
 			op.cancelMode, op.cancelAfter = 2, s.Draw("cancel-after-terminate", 4)
 		case 5:
 			op.cancelMode, op.deadline = 3, c03Deadlines[s.Draw("deadline", len(c03Deadlines))]+time.Duration(i)*time.Millisecond
-			if op.kind == c03SearchValue && op.lazy {
+			if op.kind == c03SearchValue && op.lazy && !c.Racy {
 				op.cancelMode, op.deadline = 0, 0 // see cancelSafe: a deadline cannot wait for a safe instant
 			}
 		}
+		if op.cancelMode == 2 && c.Client != "" {
+			// no lookup events from these clients: cancel at a drawn step instead
+			op.cancelMode, op.cancelAfter = 1, 1+3*op.cancelAfter
+		}
+		if op.cancelMode == 0 && (c.Client != "" || c.Quorum) {
+			op.neverCancel = s.Chance("never-cancel", 2, 3)
+		}
+	}
+	for _, k := range op.bulkKeys {
+		w.byKey[k] = op
 	}
 	w.byKey[op.wireKey] = op
 	w.byTag[op.tag] = op
@@ -613,10 +878,16 @@ func c03AppendUnique(l []*simnet.Peer, p *simnet.Peer) []*simnet.Peer {
 // operation; the goroutine parks at once so that starting it is a decision.
 func (w *c03world) spawn(op *c03op) {
 	s := w.s
-	evCtx, evCancel := context.WithCancel(context.Background())
-	regCtx, evCh := dht.RegisterForLookupEvents(evCtx)
-	op.evCancel, op.evCh = evCancel, evCh
-	op.base = sim.WithTag(regCtx, op.tag)
+	if w.cfg.Client != "" || op.neverCancel {
+		// no lookup-event subscription (its context would have to be cancelled
+		// to end it): the caller's context hangs off context.Background()
+		op.base = sim.WithTag(context.Background(), op.tag)
+	} else {
+		evCtx, evCancel := context.WithCancel(context.Background())
+		regCtx, evCh := dht.RegisterForLookupEvents(evCtx)
+		op.evCancel, op.evCh = evCancel, evCh
+		op.base = sim.WithTag(regCtx, op.tag)
+	}
 	op.api = w.h.Ops.Go(s, op.name(), func() (any, error) {
 		op.gid = c03Goid()
 		s.Park("client", op.tag, nil, op)
@@ -637,11 +908,20 @@ func (w *c03world) begin(op *c03op) {
 	if op.lazy {
 		w.s.Count("probe_lazy_consumer")
 	}
+	if op.neverCancel {
+		w.s.Count("probe_never_cancelled_ctx")
+	}
+	if op.localVal {
+		op.pipe++ // the search hands the local record to the value loop first
+	}
+	if op.quorum > 0 {
+		w.s.Count("probe_quorum_search")
+	}
 }
 
 // call runs the API call of op on the client goroutine.
 func (w *c03world) call(op *c03op) (any, error) {
-	d, ctx, s := w.h.DHT, op.ctx, w.s
+	d, ctx, s := w.api, op.ctx, w.s
 	consume := func(recv func() bool) {
 		op.apiReturned.Store(true)
 		for {
@@ -683,6 +963,10 @@ func (w *c03world) call(op *c03op) (any, error) {
 		return int(op.received.Load()), nil
 	case c03PutValue:
 		return nil, d.PutValue(ctx, op.key, op.value)
+	case c03ProvideMany:
+		return nil, d.ProvideMany(ctx, op.bulkMhs)
+	case c03PutMany:
+		return nil, d.PutMany(ctx, op.bulkKeys, op.bulkVals)
 	default:
 		return nil, d.Provide(ctx, op.cid, true)
 	}
@@ -727,9 +1011,20 @@ func (w *c03world) honestReply(x *c03peer, r *simnet.RPC) simnet.Reply {
 // does not run through a select between the done context and a ready channel
 // operation (GET_VALUE with a record, GET_PROVIDERS with providers while a
 // consumer is receiving) — those outcomes are the Go runtime's coin.
+//
+// The accelerated client differs in two places: a FIND_NODE reply of its
+// FindPeer that names the target goes through such a select (against the
+// per-operation context); providers, on the other hand, are handed over under
+// the caller's context, so a late GET_PROVIDERS reply is unproblematic as long
+// as that one is live.
+//
+// Racy scenarios: anything goes.
 func (w *c03world) lateOK(p *sim.Parked) bool {
 	if w.warm {
 		return false
+	}
+	if w.cfg.Racy {
+		return true
 	}
 	switch d := p.Data.(type) {
 	case peer.ID:
@@ -742,7 +1037,13 @@ func (w *c03world) lateOK(p *sim.Parked) bool {
 		}
 		key := string(d.Req.GetKey())
 		switch d.Req.GetType() {
-		case pb.Message_FIND_NODE, pb.Message_PUT_VALUE, pb.Message_ADD_PROVIDER:
+		case pb.Message_FIND_NODE:
+			if w.cfg.Client == "fullrt" {
+				op := w.opOf(p)
+				return op == nil || op.kind != c03FindPeer
+			}
+			return true
+		case pb.Message_PUT_VALUE, pb.Message_ADD_PROVIDER:
 			return true
 		case pb.Message_GET_VALUE:
 			_, has := x.values[key]
@@ -752,6 +1053,9 @@ func (w *c03world) lateOK(p *sim.Parked) bool {
 				return true
 			}
 			op := w.byKey[key]
+			if w.cfg.Client == "fullrt" && op != nil && op.started && op.ctx.Err() == nil {
+				return true
+			}
 			return op != nil && op.kind == c03FindProvidersAsync && op.lazy && !op.receiving.Load()
 		}
 	}
@@ -824,6 +1128,14 @@ func (w *c03world) deliver(p *sim.Parked) {
 			if !w.warm && x.mode == pmSlow {
 				s.Count("fault_slow_reply")
 			}
+			if w.carriesRecord(x, d) {
+				if op := w.opOf(p); op != nil {
+					op.pipe++
+					if p.Cancelled() && !op.cancelled {
+						s.Count("probe_late_record_after_abort")
+					}
+				}
+			}
 			s.Release(p, w.honestReply(x, d))
 		}
 	default:
@@ -858,6 +1170,7 @@ func (w *c03world) readyAt(p *sim.Parked) time.Duration {
 func (w *c03world) actions() (acts []sim.Action, wake time.Duration) {
 	s := w.s
 	now := s.Now()
+	w.syncPipes()
 	for _, p := range s.Parked() {
 		p := p
 		if p.Kind != "client" && p.Kind != "consume" && p.Kind != "dial" && p.Kind != "rpc" {
@@ -869,6 +1182,15 @@ func (w *c03world) actions() (acts []sim.Action, wake time.Duration) {
 			}
 		}
 		if p.Cancelled() {
+			if r, ok := p.Data.(*simnet.RPC); ok && w.cfg.Quorum && r.Req.GetType() == pb.Message_GET_VALUE {
+				// the standard client runs its GET_VALUE requests under the lookup's
+				// context: one that is done while the caller's is live was aborted
+				// by the follow-up phase (quorum reached there)
+				if op := w.opOf(p); op != nil && op.quorum > 0 && op.started && op.ctx.Err() == nil && !op.followAbort {
+					op.followAbort = true
+					s.Count("probe_quorum_followup_aborted")
+				}
+			}
 			acts = append(acts, sim.Action{ID: "cancel>" + p.ID, Do: func() { s.ReleaseCancelled(p) }})
 			if w.lateOK(p) {
 				acts = append(acts, sim.Action{ID: "late>" + p.ID, Do: func() {
@@ -884,9 +1206,82 @@ func (w *c03world) actions() (acts []sim.Action, wake time.Duration) {
 			}
 			continue
 		}
+		if !w.recordRoom(p) {
+			continue // enabled again once the consumer has read (its "consume" action is enabled)
+		}
 		acts = append(acts, sim.Action{ID: p.ID, Do: func() { w.deliver(p) }})
 	}
 	return acts, wake
+}
+
+// carriesRecord: will the honest reply of x to r hand the system a record?
+func (w *c03world) carriesRecord(x *c03peer, r *simnet.RPC) bool {
+	if x == nil || r.Req.GetType() != pb.Message_GET_VALUE {
+		return false
+	}
+	_, has := x.values[string(r.Req.GetKey())]
+	return has
+}
+
+// recordRoom keeps one state out of the ordinary scenarios: a SearchValue whose
+// consumer is not reading and for which two or more per-peer workers sit on a
+// record they cannot hand over. The records travel worker -> one-slot channel
+// -> value loop -> result channel; the value loop swallows a record that is
+// not better than the best so far without blocking. One receive of the
+// consumer can therefore let several blocked workers finish in the same
+// instant, and the order in which their reports reach the lookup loop (which
+// decides whether one more peer is queried before the lookup ends) is the Go
+// scheduler's. op.pipe is an upper bound of the records handed to the system
+// and not yet received by the consumer (refreshed by syncPipes at every
+// quiescent point): with at most three of them at most one worker is blocked.
+// The bound ignores what the value loop swallowed, so it is conservative.
+func (w *c03world) recordRoom(p *sim.Parked) bool {
+	if w.cfg.Racy || w.warm {
+		return true
+	}
+	r, ok := p.Data.(*simnet.RPC)
+	if !ok {
+		return true
+	}
+	x := w.peers[r.To]
+	if x == nil || (x.mode != pmHonest && x.mode != pmSlow) || !w.carriesRecord(x, r) {
+		return true
+	}
+	op := w.opOf(p)
+	if op == nil || op.kind != c03SearchValue || !op.lazy {
+		return true
+	}
+	return op.pipe < 3
+}
+
+// syncPipes refreshes op.pipe at a quiescent point: a consumer that is blocked
+// receiving has an empty pipeline behind it; every value it received since the
+// last look left the pipeline.
+func (w *c03world) syncPipes() {
+	for _, op := range w.ops {
+		if op.kind != c03SearchValue || !op.lazy {
+			continue
+		}
+		if n := int(op.received.Load()); n > op.seenRecv {
+			op.pipe -= n - op.seenRecv
+			op.seenRecv = n
+		}
+		if op.receiving.Load() || op.pipe < 0 || op.api.Done {
+			op.pipe = 0
+		}
+	}
+}
+
+// rpcLog is the request log of all senders of the client.
+func (w *c03world) rpcLog() []*simnet.RPC {
+	if len(w.snds) == 1 {
+		return w.snds[0].Snapshot()
+	}
+	var out []*simnet.RPC
+	for _, snd := range w.snds {
+		out = append(out, snd.Snapshot()...)
+	}
+	return out
 }
 
 // pump drains the lookup-event channels. Only the Terminate event of a lookup
@@ -1022,6 +1417,15 @@ func (w *c03world) onFinished(op *c03op) {
 	if op.termReason != "" {
 		s.Count("probe_term_" + op.termReason)
 	}
+	if op.quorum > 0 && w.cfg.Quorum && !op.cancelled {
+		switch {
+		case op.termReason == "stopped":
+			s.Count("probe_quorum_reached_before_termination")
+		case op.followAbort:
+		case op.termReason != "":
+			s.Count("probe_quorum_not_reached")
+		}
+	}
 	if op.kind == c03Provide && w.cfg.Optimistic {
 		switch {
 		case op.optimistic:
@@ -1036,7 +1440,7 @@ func (w *c03world) onFinished(op *c03op) {
 		}
 	}
 	if op.termStep > 0 {
-		for _, r := range w.h.Snd.Snapshot() {
+		for _, r := range w.rpcLog() {
 			if string(r.Req.GetKey()) == op.wireKey && r.Req.GetType() == op.lookupT && r.SentStep >= op.termStep {
 				s.Count("probe_followup_ran")
 				break
@@ -1048,7 +1452,7 @@ func (w *c03world) onFinished(op *c03op) {
 
 func (w *c03world) countRPC(key string, t pb.Message_MessageType) int {
 	n := 0
-	for _, r := range w.h.Snd.Snapshot() {
+	for _, r := range w.rpcLog() {
 		if string(r.Req.GetKey()) == key && r.Req.GetType() == t {
 			n++
 		}
@@ -1238,15 +1642,7 @@ func (w *c03world) drain() {
 			break
 		}
 		if len(ps) > 0 {
-			p := ps[0]
-			if p.Cancelled() {
-				s.Tracef("drain cancel>%s", p.ID)
-				s.ReleaseCancelled(p)
-			} else {
-				s.Tracef("drain %s", p.ID)
-				w.deliver(p)
-			}
-			s.Quiesce()
+			w.answerNext(ps, "drain")
 			continue
 		}
 		if waited >= c03Bound {
@@ -1270,6 +1666,98 @@ func (w *c03world) drain() {
 	if len(s.Parked()) > 0 {
 		s.Count("probe_background_left_for_close")
 	}
+}
+
+// answerNext answers the first parked call in canonical order (benignly by
+// healthy peers, with the failure by failing ones; a call whose context is done
+// observes that) - the first one for which there is room, see recordRoom; a
+// consumer's "consume" call always qualifies.
+func (w *c03world) answerNext(ps []*sim.Parked, phase string) {
+	s := w.s
+	w.syncPipes()
+	p := ps[0]
+	for _, q := range ps {
+		if q.Cancelled() || w.recordRoom(q) {
+			p = q
+			break
+		}
+	}
+	if p.Cancelled() {
+		s.Tracef("%s cancel>%s", phase, p.ID)
+		s.ReleaseCancelled(p)
+	} else {
+		s.Tracef("%s %s", phase, p.ID)
+		w.deliver(p)
+	}
+	s.Quiesce()
+}
+
+// backgroundCensus: "work left in the background ends by itself within the
+// operation's own time-outs". Sound only in the state the sentence speaks
+// about: every operation has returned, the scheduler answered every call that
+// was still parked (drain with drainBackground) and keeps answering whatever
+// shows up, c03Bound of virtual time - more than any time-out the operations
+// document - passes with nothing parked at its end. The contexts of the
+// operations drawn "never cancelled" and of those not yet torn down are still
+// live, and Close has not been called. What the instance runs then must be
+// what it ran before the first operation (its long-lived loops): goroutines
+// are compared by creating function with the census play() took. Fewer is
+// fine (a start-up task that ended).
+func (w *c03world) backgroundCensus() {
+	s := w.s
+	if !w.drainBackground {
+		return
+	}
+	for _, op := range w.ops {
+		if !op.started || op.abandoned || !op.api.Done {
+			return
+		}
+	}
+	var waited time.Duration
+	jump := time.Second
+	for n := 0; n < 3000 && waited < c03Bound; n++ {
+		if ps := s.Parked(); len(ps) > 0 {
+			w.answerNext(ps, "background")
+			continue
+		}
+		s.Sleep(jump)
+		waited += jump
+		if jump < 30*time.Second {
+			jump *= 2
+		}
+	}
+	if len(s.Parked()) > 0 {
+		s.Count("step_budget_exhausted")
+		return
+	}
+	now := c03Census()
+	var extra []string
+	for c, n := range now {
+		if n > w.baseline[c] {
+			extra = append(extra, fmt.Sprintf("%dx %s", n-w.baseline[c], c))
+		}
+	}
+	if len(extra) == 0 {
+		s.Count("probe_background_ended_by_itself")
+		return
+	}
+	sort.Strings(extra)
+	var kinds []string
+	for _, op := range w.ops {
+		kinds = append(kinds, fmt.Sprintf("%s(quorum=%d,neverCancelled=%v,ctxErr=%v)", op.name(), op.quorum, op.neverCancel, op.ctx.Err()))
+	}
+	var sites, stacks []string
+	for _, g := range c03Goroutines() {
+		if c := sim.CreatorOf(g); now[c] > w.baseline[c] {
+			sites = append(sites, c03Site(g))
+			stacks = append(stacks, g)
+		}
+	}
+	sort.Strings(sites)
+	site := sites[0]
+	rule, note := w.lingerRule(stacks, "background-lingers")
+	s.Violate(rule, "every operation has returned (%s), every parked call was answered and %v of virtual time passed with nothing left to answer, Close not yet called: the instance still runs goroutines it did not run before the first operation: %s; one of them sits in %s",
+		strings.Join(kinds, ", "), c03Bound, strings.Join(extra, ", "), site+note)
 }
 
 // judge: bounded completion. Every started operation must have returned and
@@ -1297,6 +1785,9 @@ func (w *c03world) judge() {
 func (w *c03world) teardown() {
 	s := w.s
 	for _, op := range w.ops {
+		if op.neverCancel && op.api.Done && !s.Failed() {
+			continue // a caller that never cancels: the context stays live through Close
+		}
 		if op.cancel != nil {
 			op.cancel()
 		}
@@ -1309,5 +1800,56 @@ func (w *c03world) teardown() {
 		}
 	}
 	s.Quiesce()
-	w.h.closeAndCensus()
+	w.closeAndCensus()
+}
+
+// closeAndCensus is the shared closeAndCensus (h1.go) with two differences:
+// only goroutines of this run's bubble are counted, and the survivors are
+// classified by lingerRule.
+func (w *c03world) closeAndCensus() {
+	s := w.s
+	var ops opSet
+	op := ops.Go(s, "close", func() (any, error) { w.closeSUT(); return nil, nil })
+	for i := 0; i < 200; i++ {
+		s.Quiesce()
+		ps := s.Parked()
+		if op.Done && len(ps) == 0 {
+			break
+		}
+		if len(ps) == 0 {
+			s.Sleep(time.Second)
+			continue
+		}
+		if p := ps[0]; p.Cancelled() {
+			s.ReleaseCancelled(p)
+		} else {
+			releaseBenign(s, p)
+		}
+	}
+	s.Quiesce()
+	if op.Panic != "" {
+		s.Violate("close-panic", "Close panicked: %s", firstLine(op.Panic))
+		return
+	}
+	if !op.Done {
+		s.Violate("close-hang", "Close did not return after everything parked was released and 200 s of virtual time")
+		return
+	}
+	for i := 0; i < 5; i++ {
+		if len(c03Goroutines()) == 0 {
+			return
+		}
+		s.Sleep(time.Minute)
+	}
+	sut := c03Goroutines()
+	if len(sut) == 0 {
+		return
+	}
+	var cs []string
+	for _, g := range sut {
+		cs = append(cs, sim.CreatorOf(g))
+	}
+	sort.Strings(cs)
+	rule, note := w.lingerRule(sut, "leak")
+	s.Violate(rule, "%d goroutine(s) survive Close: %s%s", len(sut), strings.Join(cs, ", "), note)
 }
